@@ -157,7 +157,7 @@ func checkOwnersLoop(r *core.Run, rule string, fn *core.Fn, partField string, ev
 			}
 			found = true
 			full := l.Lo == 0 && l.HiOff == 1
-			r.Check(full, rule, fn.Name+" loop over "+partField+" owners", site(r, instrPos(l.Phi)),
+			r.Check(full, rule, fn.Name+" loop over "+partField+" owners", site(r, l.Pos()),
 				"ranges over every "+partField+" owner", fmt.Sprintf("the loop covers owners[%d .. len-%d] only: some %s owner never receives the operation", l.Lo, l.HiOff, partField))
 			// ev in every iteration: a matching instruction dominates every back edge
 			var evs []ssa.Instruction
@@ -181,8 +181,8 @@ func checkOwnersLoop(r *core.Run, rule string, fn *core.Fn, partField string, ev
 			ok2 := false
 			for _, e := range evs {
 				all := true
-				for _, p := range l.Header.Preds {
-					if l.Header.Dominates(p) && !e.Block().Dominates(p) {
+				for _, p := range l.Latches() {
+					if !e.Block().Dominates(p) {
 						all = false
 					}
 				}
@@ -190,7 +190,7 @@ func checkOwnersLoop(r *core.Run, rule string, fn *core.Fn, partField string, ev
 					ok2 = true
 				}
 			}
-			r.Check(ok2, rule, fn.Name+" every "+partField+" owner "+evName, site(r, instrPos(l.Phi)),
+			r.Check(ok2, rule, fn.Name+" every "+partField+" owner "+evName, site(r, l.Pos()),
 				"every iteration "+evName, "some iterations skip the owner without contacting it")
 		}
 	}
@@ -379,9 +379,16 @@ func previousOwnersLoop(r *core.Run, rule string, fn *core.Fn, ev instrPred, evN
 		case *ssa.Parameter:
 			okSrc, src = true, "parameter "+x.Name()
 		}
-		r.Check(okSrc && l.Lo == 0 && l.HiOff == 2, rule, fn.Name+" previous-owner loop", site(r, instrPos(l.Phi)),
+		r.Check(okSrc && l.Lo == 0 && l.HiOff == 2, rule, fn.Name+" previous-owner loop", site(r, l.Pos()),
 			"visits owners[0 .. len-2] of "+src+" (every previous owner; the last element is this member)",
 			fmt.Sprintf("the loop visits owners[%d .. len-%d] of %s: a previous owner that still holds data is skipped", l.Lo, l.HiOff, src))
+		// every iteration contacts the owner: an iteration may end without the request only
+		// on the true edge of owner.CompareByID(This()) (this member's own copy is handled
+		// by the caller)
+		skip := skippingLatch(l, ev)
+		r.Check(skip == nil, rule, fn.Name+" previous-owner loop contacts every owner", site(r, l.Pos()),
+			"an iteration ends without "+evName+" only for this member itself",
+			"an iteration can end without "+evName+" for an owner other than this member"+blockAt(r, skip)+": that previous owner keeps its copy")
 	}
 	if !found {
 		r.Unknown(rule, fn.Name+" previous-owner loop", site(r, fn.SSA.Pos()), "no counting loop calling "+evName+" recognised")
@@ -417,4 +424,52 @@ func c02WhoDeletes(r *core.Run) {
 		}
 	}
 	r.Floor("who-deletes-primary", cnt, 2)
+}
+
+// skippingLatch looks for a way through one iteration of l that reaches the next iteration
+// without executing an instruction matching ev and without taking the true edge of a
+// self test (x.CompareByID(This())). It returns the latch block reached, or nil.
+func skippingLatch(l *core.IndexLoop, ev instrPred) *ssa.BasicBlock {
+	region := l.Region()
+	latch := map[*ssa.BasicBlock]bool{}
+	for _, b := range l.Latches() {
+		latch[b] = true
+	}
+	start := l.Stay
+	if l.Yield != nil && len(l.Yield.Blocks) > 0 {
+		start = l.Yield.Blocks[0]
+	}
+	if start == nil {
+		return nil
+	}
+	if l.Yield == nil {
+		// the header ends the iteration: it is not part of the way through the body
+		r2 := map[*ssa.BasicBlock]bool{}
+		for b := range region {
+			if b != l.Header {
+				r2[b] = true
+			}
+		}
+		region = r2
+	}
+	return pathSearch(start, region, ev, func(b *ssa.BasicBlock) bool { return latch[b] }, func(from, to *ssa.BasicBlock) bool {
+		for _, cd := range edgeConds(from, to) {
+			if c, isC := cd.Val.(*ssa.Call); isC && cd.Truth && isSelfTest(c) {
+				return false
+			}
+		}
+		return true
+	})
+}
+
+func blockAt(r *core.Run, b *ssa.BasicBlock) string {
+	if b == nil {
+		return ""
+	}
+	for _, in := range b.Instrs {
+		if in.Pos().IsValid() {
+			return " (reaching " + site(r, in.Pos()) + ")"
+		}
+	}
+	return ""
 }
